@@ -147,6 +147,10 @@ class Runner(object):
         self.mod = importlib.import_module(modname)
         self.modname = modname
 
+    def exec_stmt(self, stmt):
+        """run a statement in the namespace of the loaded module (in-place update of a module variable)"""
+        exec(stmt, self.mod.__dict__)
+
     def reset_process_state(self):
         """what a restart of the interpreter would forget (used to emulate a fresh process cheaply)"""
         if self.mode != "real":
@@ -247,6 +251,9 @@ def main():
                 out = {"ok": True, "store": repr(r.store.inner)}
             elif cmd == "world":
                 r.load_world(rq["dir"], rq["module"], rq.get("extmod"), rq.get("accept"))
+                out = {"ok": True}
+            elif cmd == "exec":
+                r.exec_stmt(rq["stmt"])
                 out = {"ok": True}
             elif cmd == "refpaths":
                 r.ref_paths = dict(rq["paths"])
